@@ -6,7 +6,7 @@ from __future__ import annotations
 from typing import Any, Dict, List, Optional, Tuple
 
 from .gomodel import Node, go_src
-from .normal import C, Poly, V, band, bnot, bor, call, div8, mod8, opaque, pow2, shl, show, shr, sshift, trunc8, vmin
+from .normal import C, Poly, V, band, bnot, bor, call, div8, mod8, opaque, piecewise, pow2, shl, show, shr, sshift, trunc8, vmin
 from .symeval import Effect
 
 INT_CONVS = {"int", "int8", "int16", "int32", "int64", "uint", "uint16", "uint32", "uint64", "Flag"}
@@ -169,12 +169,44 @@ class GoLower:
                 if tail:
                     return self._merge(branches, self._ret_value(tail, env, depth), env, depth)
                 continue
+            if st.k == "switch":
+                # switch { case c1: return v1 ... default: return d }  /  switch x { case k: ... }
+                default: Optional[List[Node]] = None
+                ok = True
+                for cs in st.cases:
+                    if not cs.body or cs.body[-1].k != "return":
+                        ok = False
+                        break
+                    if cs.vals is None:
+                        default = cs.body
+                        continue
+                    if len(cs.vals) != 1:
+                        ok = False
+                        break
+                    cond = cs.vals[0] if st.tag is None else Node(k="bin", op="==", l=st.tag, r=cs.vals[0], line=cs.line)
+                    branches.append((cond, self._ret_value(cs.body, env, depth)))
+                if not ok:
+                    return opaque("inline:switch")
+                if default is not None:
+                    return self._merge(branches, self._ret_value(default, env, depth), env, depth)
+                continue
             return opaque(f"inline:{st.k}")
         return opaque("inline:no-return")
 
     def _merge(self, branches: List[Tuple[Node, Poly]], general: Poly, env: Dict[str, Poly], depth: int) -> Poly:
         if not branches:
             return general
+        tests = []
+        for t, v in branches:
+            while t.k == "paren":
+                t = t.x
+            if t.k == "bin" and t.op in ("<", "<=", "==", "!=", ">=", ">"):
+                tests.append(((t.op, self.expr(t.l, env, depth), self.expr(t.r, env, depth)), v))
+            else:
+                tests.append((None, v))
+        pw = piecewise(tests, general)
+        if pw is not None:
+            return pw
         if len(branches) == 2:
             s = self._sign_shape(branches, general, env, depth)
             if s is not None:
